@@ -412,8 +412,18 @@ func (g *gateway) observe(hosts []string, clusterNames []string) (map[string]str
 
 type ev map[string]interface{}
 
-func runScenario(t *testing.T, sc scenario) []ev {
-	var events []ev
+func runScenario(t *testing.T, sc scenario) (events []ev) {
+	finished := false
+	// goroutines of a cluster the gateway lost track of (not stopped by the shutdown) make the bubble report "blocked goroutines remain" at its
+	// end: that report is not the outcome, the observations recorded before it are
+	defer func() {
+		if r := recover(); r != nil {
+			if !finished || !strings.Contains(fmt.Sprint(r), "blocked goroutines remain") {
+				panic(r)
+			}
+			events = append(events, ev{"k": "leak"})
+		}
+	}()
 	synctest.Test(t, func(t *testing.T) {
 		gw := newGatewaySpy(sc.Hosts)
 		time.Sleep(time.Second)
@@ -509,6 +519,7 @@ func runScenario(t *testing.T, sc scenario) []ev {
 		gw.close()
 		time.Sleep(60 * time.Second)
 		synctest.Wait()
+		finished = true
 	})
 	return events
 }
